@@ -6,6 +6,7 @@ import (
 	"reflect"
 	"runtime"
 	"strings"
+	"unsafe"
 )
 
 // Verification hooks for the debugger property (C19). Compiled only with
@@ -21,6 +22,8 @@ type VerifC19Node struct {
 	Line     int     // source line of node.pos (0 if the position is not valid)
 	PosValid bool    // node.pos != token.NoPos
 	Code     uintptr // reflect.ValueOf(node.exec).Pointer(), 0 if node.exec is nil
+	Clo      uintptr // identity of the closure object node.exec (not of its code), 0 if nil
+	Forward  uintptr // identity of the closure recorded in node.debug.forward, 0 if none (or no such field)
 	Tnext    int     // place of node.tnext in the dump, -1 if nil, -2 if outside
 	Fnext    int     // likewise for node.fnext
 	Start    int     // likewise for node.start
@@ -53,6 +56,30 @@ func verifC19Code(b bltn) uintptr {
 	return reflect.ValueOf(b).Pointer()
 }
 
+// verifC19Clo returns the identity of the closure object b: the word a func
+// value consists of. Closures made by one function literal share their code
+// (verifC19Code) and differ in this.
+func verifC19Clo(b bltn) uintptr {
+	if b == nil {
+		return 0
+	}
+	return uintptr(*(*unsafe.Pointer)(unsafe.Pointer(&b)))
+}
+
+// verifC19Forward returns the identity of the forwarding closure recorded on
+// the node by setExec (field forward of nodeDebugData), 0 if there is none. The
+// field is looked up by name so that this file compiles with and without it.
+func verifC19Forward(n *node) uintptr {
+	if n.debug == nil {
+		return 0
+	}
+	f := reflect.ValueOf(n.debug).Elem().FieldByName("forward")
+	if !f.IsValid() || f.Kind() != reflect.Func || f.IsNil() {
+		return 0
+	}
+	return uintptr(*(*unsafe.Pointer)(unsafe.Pointer(f.UnsafeAddr())))
+}
+
 // VerifC19Dump lists the nodes of a compiled program in the order of
 // (*node).Walk from its root.
 func (interp *Interpreter) VerifC19Dump(prog *Program) []VerifC19Node {
@@ -74,6 +101,8 @@ func (interp *Interpreter) VerifC19Dump(prog *Program) []VerifC19Node {
 			Action:   n.action.String(),
 			PosValid: n.pos.IsValid(),
 			Code:     verifC19Code(n.exec),
+			Clo:      verifC19Clo(n.exec),
+			Forward:  verifC19Forward(n),
 			Tnext:    at(n.tnext),
 			Fnext:    at(n.fnext),
 			Start:    at(n.start),
@@ -218,7 +247,7 @@ func verifC19ViaTrampoline() bool {
 		return false
 	}
 	fn := runtime.FuncForPC(pc[0] - 1)
-	return fn != nil && strings.Contains(fn.Name(), ".setExec.")
+	return fn != nil && (strings.Contains(fn.Name(), ".setExec.") || strings.Contains(fn.Name(), ".setForwardExec."))
 }
 
 // VerifC19SetBreakpoints applies SetBreakpoints to a program outside a debug
